@@ -38,6 +38,16 @@ let handle cmd =
     str_cost (dist_model u s1 s2)
   | "pydistp" -> let b = nint () in let u = rd_usettings () in let s1 = rd_series () in let s2 = rd_series () in
     str_cost (distp_model u s1 s2 (if b < 0 then Inf else Fin (z_of_int b)))
+  | "kbest" -> let n = nint () in
+    let slots = rd_list n (fun () -> let v = nint () in if v = -1 then InfV else if v = -2 then MaxV else V (z_of_int v)) in
+    let begs = rd_list n (fun () -> nat_of_int (nint ())) in
+    let overlap = nat_of_int (nint ()) in let minlength = nat_of_int (nint ()) in
+    let mx = nint () in let maxlength = if mx < 0 then None else Some (nat_of_int mx) in
+    let maxinf = nint () = 1 in
+    let kk = nint () in let k = if kk < 0 then None else Some (nat_of_int kk) in
+    let beg e = (match List.nth_opt begs (int_of_nat e) with Some b -> b | None -> e) in
+    String.concat " " (List.map (fun ((b, e), _) -> string_of_int (int_of_nat b) ^ "," ^ string_of_int (int_of_nat e))
+                         (kbest beg overlap minlength maxlength maxinf k slots))
   | "pywps" -> let b = nint () in let fc = nint () = 1 in
     let u = rd_usettings () in let s1 = rd_series () in let s2 = rd_series () in
     (match wps_code_model u s1 s2 (if b < 0 then Inf else Fin (z_of_int b)) fc with
